@@ -143,8 +143,21 @@ end assembly
 section batch
 variable {ε ν : Type}
 
-theorem evaluateBatch_elementwise (ev : List ε → ν) (X : List (List ε)) :
-    evaluateBatch true ev X = .ok (X.map ev) := by simp [evaluateBatch]
+theorem mapM_pure_except (ev : List ε → ν) (X : List (List ε)) :
+    X.mapM (fun v => (pure (ev v) : Except String ν)) = .ok (X.map ev) := by
+  induction X with
+  | nil => rfl
+  | cons a l ih =>
+    have ih' : List.mapM (fun v => (Except.ok (ev v) : Except String ν)) l = Except.ok (List.map ev l) := ih
+    simp [List.mapM_cons, bind, Except.bind, pure, Except.pure, ih']
+
+/-- the repaired `Problem._evaluate` hands over the row-wise evaluation in BOTH branches -/
+theorem evaluateBatch_eq (elementwise : Bool) (ev : List ε → ν) (X : List (List ε)) :
+    evaluateBatch elementwise ev X = .ok (X.map ev) := by
+  unfold evaluateBatch
+  cases elementwise
+  · simpa using mapM_pure_except ev X
+  · simp
 
 end batch
 
@@ -161,7 +174,7 @@ theorem clampR_id (l u q : ℚ) (h1 : l ≤ q) (h2 : q ≤ u) : clampR l u q = q
   unfold clampR
   rw [if_neg (not_lt.mpr h1), if_neg (not_lt.mpr h2)]
 
-/-! ### violation key vs the climbers' raw key -/
+/-! ### the climbers' key (repaired) vs the raw-sum key before the repair of D41 -/
 
 theorem ratMax0_of_nonneg (q : ℚ) (h : 0 ≤ q) : TableProb.ratMax0 q = q := by
   unfold TableProb.ratMax0; rw [if_neg (not_lt.mpr h)]
@@ -169,9 +182,9 @@ theorem ratMax0_of_nonneg (q : ℚ) (h : 0 ≤ q) : TableProb.ratMax0 q = q := b
 theorem ratAbs_of_nonneg (q : ℚ) (h : 0 ≤ q) : TableProb.ratAbs q = q := by
   unfold TableProb.ratAbs; rw [if_neg (not_lt.mpr h)]
 
-theorem vkey_eq_key (v : List ℚ × List ℚ × List ℚ) (hg : ∀ a ∈ v.2.1, 0 ≤ a) (hh : ∀ a ∈ v.2.2, 0 ≤ a) :
-    TableProb.vkey v = TableProb.key v := by
-  unfold TableProb.vkey TableProb.key
+theorem key_eq_keyPrerepair (v : List ℚ × List ℚ × List ℚ) (hg : ∀ a ∈ v.2.1, 0 ≤ a) (hh : ∀ a ∈ v.2.2, 0 ≤ a) :
+    TableProb.key v = TableProb.keyPrerepair v := by
+  unfold TableProb.key TableProb.keyPrerepair
   have e1 : v.2.1.map TableProb.ratMax0 = v.2.1 := by
     conv_rhs => rw [← List.map_id v.2.1]
     exact List.map_congr_left (fun a ha => ratMax0_of_nonneg a (hg a ha))
@@ -181,13 +194,13 @@ theorem vkey_eq_key (v : List ℚ × List ℚ × List ℚ) (hg : ∀ a ∈ v.2.1
   rw [e1, e2]
 
 /-- the D41 table: two signed inequality constraints `cost·x − budget` -/
-def d37 : TableProb :=
+def d41 : TableProb :=
   { space := [10, 11, 12, 13, 14, 15], k := 2, lin := [[-4], [-3], [-2], [-5], [4], [-3]], mean := false,
     quad := [], posw := [], objWt := [1],
     ineq := [([4, 3, 0, 3, 3, 0], 4), ([0, 1, 0, 2, 2, 3], 3)], ineqWt := [1, 1], eq := [], eqWt := [],
     ineqSigned := [true, true] }
 
 /-- the same table with penalty-style constraint functions `max(0, cost·x − budget)` -/
-def d37pen : TableProb := { d37 with ineqSigned := [] }
+def d41pen : TableProb := { d41 with ineqSigned := [] }
 
 end Optimize
